@@ -259,7 +259,19 @@ fn emit_wrapped_loop_choice_body(
             // (after any [bracketed] part) is printed by the branch itself.
             branch_nodes.extend(tokenize_inline_content(inner)?);
         }
-        branch_nodes.extend(choice.selected_tags.iter().cloned().map(Node::Tag));
+        // the tags of the start text are replayed with it through `s`: only those written after
+        // it are the branch's own
+        let replayed = if choice.has_start_content {
+            choice.start_tags.len().min(choice.selected_tags.len())
+        } else {
+            0
+        };
+        branch_nodes.extend(
+            choice.selected_tags[replayed..]
+                .iter()
+                .cloned()
+                .map(Node::Tag),
+        );
         if !body_already_emitted && !choice.has_start_content {
             let body_is_terminal_divert = choice.body_divert_is_inline
                 && matches!(
